@@ -192,6 +192,7 @@ Tof1Rest(r) ==
      /\ IF r.verr THEN r.e = "Reopen" /\ Len(r.file) < c.n ELSE ReadOk(store, LAMBDA b : TRUE, LAMBDA b : stdT[b] + 1, r.vals, c.n)
 Classify(r) ==
   IF c # NoCfg /\ Tof1 /\ r.e \in {"Reopen", "WriteToFile"} /\ (r.e = "Reopen" \/ ~c.fresh) /\ Tof1Rest(r) /\ ObsOk(r, c, store, posT)
+     /\ (r.err \/ r.geo # r.geo0 \/ ~r.pdiEq)
   THEN "C02-tof1hdr"
   ELSE IF c # NoCfg /\ ((r.e = "Reopen" /\ ReopenCore(r)) \/ (r.e = "WriteToFile" /\ WriteToFileCore(r)))
      /\ ObsOk(r, c, store, posT) /\ r.examx # r.examx0
